@@ -4,13 +4,13 @@ PROP = {
     "title": "Reindexing equals analysing the current files from scratch",
     "engine": "E1",
     "level": "exploration",
-    "technique": "runtime monitor: observable dump of the reindexed analysis vs. a fresh reference analysis of the surviving files (same config, same id order)",
+    "technique": "runtime monitor: observable dump and index census of the reindexed analysis vs. a fresh reference analysis of the surviving files (same config, same id order)",
     "design_ref": "§4 C09",
     "rule": "case = generated workspace + any start (batch | one-by-one | +reindex) + history of update / re-submit / edit-restore / remove (both APIs) / re-add / "
-            "reindex / config-change (6 Emmyrc variants) steps, then reindex(); reference = new analysis, final config, same roots, surviving files registered in the "
+            "reindex / bare update_config / config-reload (update_config + batch re-submission of all files; 6 Emmyrc variants) steps, then reindex(); reference = new analysis, final config, same roots, surviving files registered in the "
             "order of the reindexed analysis' file ids and analysed in id order; distinct = hash of (texts, config, setup, steps); "
             "non-trivial = >= 2 surviving files and >= 1 state-changing step applied",
-    "min_nontrivial": {"quick": 300, "thorough": 10000},
+    "min_nontrivial": {"quick": 300, "thorough": 8000},
     "max_secs": {"quick": 60, "thorough": 1000},
     "require_clauses": ["a:reindexed-equals-fresh", "b:census-not-larger-than-fresh", "step:update", "step:remove", "step:re-add", "step:config", "step:config-reload", "step:reindex"],
     "assumptions": COMMON_ASSUME + [
@@ -18,5 +18,5 @@ PROP = {
         "no std library loaded; reference analyses that are not reproducible (C11) make the case inconclusive",
     ],
     "level_text": "Every generated history is executed against the real EmmyLuaAnalysis, followed by reindex(); the result is compared with an independent fresh analysis. Exploration over generated histories, not a proof.",
-    "level_note": "Remote (non-file) documents are not part of the workload; census differences between reindexed and fresh analysis are reported as counters only.",
+    "level_note": "Remote (non-file) documents are not part of the workload; a census surplus of the reindexed analysis over the fresh one is a violation (clause b), a deficit is not.",
 }
